@@ -149,8 +149,9 @@ class Check(CheckBase):
             fakehttp.attach(be, svc)
             return be, (lambda: dict(svc.objects)), svc
         from replicat.backends.b2 import B2
-        be = B2('my-bucket', key_id='kid', application_key='appkey')
         svc = fakehttp.FakeB2('my-bucket', 'kid', 'appkey', page_size=case['page'], restricted=case['seed'] % 2 == 0)
+        # the location is spelled with the bucket's name or with its id: both are accepted
+        be = B2(svc.bucket_id if (case['seed'] // 2) % 3 == 0 else 'my-bucket', key_id='kid', application_key='appkey')
         fakehttp.attach(be, svc)
         return be, svc.live, svc
 
@@ -357,10 +358,38 @@ class Check(CheckBase):
                 be.upload_stream('d/obj', io.BytesIO(b), len(b), 7000)
             if seen['bad']:
                 break
+        # two writers overwrite the SAME name at once (two clients, or two workers of one snapshot hitting one chunk):
+        # readers still see one payload or the other, each upload completes, and the object ends up as one of the two
+        werr = []
+
+        def writer(payload, streamed):
+            try:
+                for _ in range(60):
+                    if streamed:
+                        be.upload_stream('d/obj', io.BytesIO(payload), len(payload), 7000)
+                    else:
+                        be.upload('d/obj', payload)
+                    if seen['bad']:
+                        break
+            except Exception as e:             # noqa: BLE001
+                werr.append(f'{type(e).__name__}: {e}')
+        if not seen['bad']:
+            ws = [threading.Thread(target=writer, args=(a, case['seed'] % 2 == 0)), threading.Thread(target=writer, args=(b, True))]
+            for t in ws:
+                t.start()
+            for t in ws:
+                t.join(120)
+            seen['concurrent_writer_rounds'] = 120
         stop.set()
         for t in th:
             t.join(20)
         v = []
+        if werr:
+            v.append({'what': 'an upload failed because another upload of the same name ran at the same time: ' + werr[0],
+                      'mechanism': None, 'witness': {}})
+        final = be.download('d/obj')
+        if final != a and final != b:
+            v.append({'what': f'after concurrent overwrites the object is neither payload ({len(final)} bytes)', 'mechanism': None, 'witness': {}})
         if seen['bad']:
             v.append({'what': 'overwrite on the local backend is not atomic: ' + seen['bad'], 'mechanism': None, 'witness': {}})
         if seen['exists_false']:
